@@ -62,7 +62,9 @@ func reuseJobOf(q string, states []*D) h.Job {
 // runReuse evaluates, for each (query, states), one parsed operation over a live document and compares
 // every outcome with the outcome of a fresh parse on a fresh copy of that state (computed through
 // the ordinary eval cases, hence also compared with the model).
-func (c *Ctx) runReuse(tag string, queries []string, states [][]*D) { c.runReuseIn(tag, queries, states, false) }
+func (c *Ctx) runReuse(tag string, queries []string, states [][]*D) {
+	c.runReuseIn(tag, queries, states, false)
+}
 
 // runReuseIn: fresh = every job in a process of its own (nothing has been evaluated there before)
 func (c *Ctx) runReuseIn(tag string, queries []string, states [][]*D, fresh bool) {
